@@ -1,7 +1,7 @@
 (* C04 - graceful shutdown completes in-flight requests and leaves nothing behind.
    Statements only; every proof is `exact` of a lemma of Proof/Shutdown*.v (or a computation on a regenerated table). *)
 From Coq Require Import List ZArith Bool Lia.
-From GV Require Import Gen.GenArbiter Gen.GenShutdown Model.Shutdown Proof.ShutdownBase Proof.ShutdownMaster Proof.ShutdownWorker Proof.ShutdownTerm.
+From GV Require Import Gen.GenArbiter Gen.GenShutdown Model.Shutdown Proof.ShutdownBase Proof.ShutdownMaster Proof.ShutdownWorker Proof.ShutdownTerm Proof.ShutdownStatus.
 Import ListNotations.
 Local Open Scope Z_scope.
 
@@ -18,12 +18,16 @@ Lemma master_tables : master_limit_graceful = true /\ 0 < stop_nap_ticks.
 Proof. vm_compute. split; reflexivity. Qed.
 
 (* ---- the master --------------------------------------------------------------------------------------------------- *)
-(* TERM: for every schedule of child deaths, SIGCHLD deliveries and delays, if the master exits then it exits with
-   status 0, no later than graceful_timeout + one nap + the delays, no tracked worker process is left running, every
-   listener is closed, the pid file is gone, and the unix socket files are gone when this master owns them alone. *)
+(* TERM: for every schedule of child deaths (ANY status), SIGCHLD deliveries and delays, if the master exits then it exits
+   with status 0, no later than graceful_timeout + one nap + the delays, no tracked worker process is left running, every
+   listener is closed, the pid file is gone, and the unix socket files are gone when this master owns them alone.
+   [boot_scope ls]: on a tree whose reap_workers tests `not self._stopping` (reap_guards_halting = true, read from the
+   source) only the part of the schedule BEFORE the dispatch must be free of boot failures (exit codes 3 / 4: such a
+   failure came first and its code is the exit status, C03); one reaped while the master stops is an ordinary death.  On a
+   tree without the test the whole schedule must be free of them (boot_failure_during_stop below). *)
 Theorem graceful_end_state : forall c s0 ls status,
   cur s0 = PDispatch SIGTERM -> 0 <= grace c ->
-  NoDup (map k_pid (kids s0)) -> covered s0 -> no_boot_failure s0 ls ->
+  NoDup (map k_pid (kids s0)) -> covered s0 -> no_boot_failure s0 (boot_scope ls) ->
   let s := run c s0 ls in
   cur s = PExited status ->
   status = 0 /\
@@ -36,7 +40,7 @@ Theorem graceful_end_state : forall c s0 ls status,
 Proof.
   intros c s0 ls status E Hg N C B s X.
   assert (Hn : 0 <= nap) by (unfold nap; destruct master_tables; lia).
-  destruct (graceful_exit_status c s0 SIGTERM ls E B) as [_ St].
+  destruct (shutdown_exit_status c s0 SIGTERM ls E eq_refl B) as [_ St].
   pose proof (exit_time c s0 SIGTERM ls status E Hg Hn X) as T. rewrite Z.eqb_refl in T.
   destruct (end_state_files c s0 SIGTERM ls status E Hg Hn X) as [F1 [F2 [F3 [F4 _]]]].
   split; [apply St; exact X|]. split; [unfold nap in T; fold s in T; lia|].
@@ -47,7 +51,7 @@ Print Assumptions graceful_end_state.
 (* INT / QUIT: the same end state; the wait is bounded by twice (graceful_timeout + nap): stop(False), then halt() *)
 Theorem quick_shutdown : forall c s0 sg ls status,
   cur s0 = PDispatch sg -> sg = SIGINT \/ sg = SIGQUIT -> 0 <= grace c ->
-  NoDup (map k_pid (kids s0)) -> covered s0 -> no_boot_failure s0 ls ->
+  NoDup (map k_pid (kids s0)) -> covered s0 -> no_boot_failure s0 (boot_scope ls) ->
   let s := run c s0 ls in
   cur s = PExited status ->
   status = 0 /\
@@ -60,7 +64,8 @@ Theorem quick_shutdown : forall c s0 sg ls status,
 Proof.
   intros c s0 sg ls status E Sg Hg N C B s X.
   assert (Hn : 0 <= nap) by (unfold nap; destruct master_tables; lia).
-  destruct (graceful_exit_status c s0 sg ls E B) as [_ St].
+  assert (Ss : stop_signal sg = true) by (destruct Sg; subst sg; vm_compute; reflexivity).
+  destruct (shutdown_exit_status c s0 sg ls E Ss B) as [_ St].
   pose proof (exit_time c s0 sg ls status E Hg Hn X) as T.
   assert (Q : (sg =? SIGTERM) = false) by (destruct Sg; subst sg; vm_compute; reflexivity). rewrite Q in T.
   destruct (end_state_files c s0 sg ls status E Hg Hn X) as [F1 [F2 [F3 [F4 _]]]].
@@ -71,19 +76,53 @@ Print Assumptions quick_shutdown.
 
 (* the master does exit: whatever the environment does, a bounded number of its own steps ends it - with status 0 *)
 Theorem master_exits : forall c s0 sg ls,
-  cur s0 = PDispatch sg -> stop_signal sg = true -> 0 <= grace c -> no_boot_failure s0 ls ->
+  cur s0 = PDispatch sg -> stop_signal sg = true -> 0 <= grace c -> no_boot_failure s0 (boot_scope ls) ->
   mu_st c s0 <= Z.of_nat (count_master ls) ->
   cur (run c s0 ls) = PExited 0.
 Proof.
   intros c s0 sg ls E S Hg B M.
   destruct master_tables as [_ Hn].
   pose proof (shutdown_terminates c Hn s0 sg ls E S M) as G.
-  destruct (graceful_exit_status c s0 sg ls E B) as [NC St].
+  destruct (shutdown_exit_status c s0 sg ls E S B) as [NC St].
   destruct (cur (run c s0 ls)) eqn:X; simpl in G; try discriminate.
   - rewrite (St status eq_refl). reflexivity.
   - exfalso. apply NC. reflexivity.
 Qed.
 Print Assumptions master_exits.
+
+(* once the signal is dispatched nothing that is reaped changes the outcome (tree with the guard): for EVERY continuation,
+   boot failures included, no exception leaves run() and an exit has status 0 - and then end_state_files / the theorems
+   above give the pid file, the listeners and the socket files *)
+Theorem dispatched_shutdown_exits_0 : reap_guards_halting = true -> forall c s0 sg ls,
+  cur s0 = PDispatch sg -> stop_signal sg = true ->
+  let s := run c s0 (Master :: ls) in
+  cur s <> PCrashed /\ (forall status, cur s = PExited status -> status = 0).
+Proof. exact dispatched_exit_status. Qed.
+Print Assumptions dispatched_shutdown_exits_0.
+
+(* whatever the status of the exit (0, or the code of a boot failure that came before the dispatch): the pid file is
+   removed, the listeners are closed - no hypothesis on what dies *)
+Theorem every_exit_removes_pidfile : forall c s0 sg ls status,
+  cur s0 = PDispatch sg -> 0 <= grace c ->
+  cur (run c s0 ls) = PExited status ->
+  lst (run c s0 ls) = [] /\ (pidconf c = true -> pidfs (run c s0 ls) = false).
+Proof.
+  intros c s0 sg ls status E Hg X.
+  assert (Hn : 0 <= nap) by (unfold nap; destruct master_tables; lia).
+  destruct (end_state_files c s0 sg ls status E Hg Hn X) as [F1 [_ [F3 _]]]. split; assumption.
+Qed.
+
+(* a boot failure reaped while the master stops (the former known finding boot-failure-during-halt).  The constant read
+   from reap_workers / stop() selects the reading that describes the tree under test:
+   repaired tree (true): from every state, for every schedule, no exception leaves run();
+   tree before the repair (false): TERM, then a worker exiting with code 3 is reaped in stop()'s wait: HaltServer escapes,
+   the master dies with the pid file in place. *)
+Theorem boot_failure_during_stop :
+  if reap_guards_halting
+  then forall c ls s, cur s <> PCrashed -> cur (run c s ls) <> PCrashed
+  else cur w_s0 = PDispatch SIGTERM /\ cur (run w_cfg w_s0 w_ls) = PCrashed /\ pidfs (run w_cfg w_s0 w_ls) = true.
+Proof. exact halt_reentry. Qed.
+Print Assumptions boot_failure_during_stop.
 
 (* a master that is one side of a binary upgrade, or runs under systemd / with reuse_port, leaves the socket files *)
 Theorem shared_sockets_stay : forall c s0 sg ls status,
@@ -160,7 +199,7 @@ Example graceful_example :
   map k_zomb (kids s) = [true].
 Proof. vm_compute. repeat split. Qed.
 Example example_hypotheses :
-  NoDup (map k_pid (kids (ex_s0 SIGTERM))) /\ covered (ex_s0 SIGTERM) /\ no_boot_failure (ex_s0 SIGTERM) ex_ls /\
+  NoDup (map k_pid (kids (ex_s0 SIGTERM))) /\ covered (ex_s0 SIGTERM) /\ no_boot_failure (ex_s0 SIGTERM) (boot_scope ex_ls) /\
   mu_st ex_cfg (ex_s0 SIGTERM) <= Z.of_nat (count_master ex_ls).
 Proof.
   split; [|split; [|split]].
@@ -168,7 +207,8 @@ Proof.
   - unfold covered. simpl. intros k [H|[H|H]] _; subst; simpl; auto; contradiction.
   - split.
     + simpl. intros k [H|[H|H]]; subst; auto; contradiction.
-    + intros p status H. unfold ex_ls in H. simpl in H.
+    + intros p status H. unfold boot_scope in H. destruct reap_guards_halting; [simpl in H; contradiction|].
+      unfold ex_ls in H. simpl in H.
       repeat (destruct H as [H|H]; [try discriminate; inversion H; reflexivity|]). contradiction.
   - vm_compute. discriminate.
 Qed.
@@ -194,3 +234,11 @@ Example worker_example_overrun :
 Proof. vm_compute. reflexivity. Qed.
 Example safe_example : Safe 768 768 (w_init GThread CResp 10 512 0).
 Proof. apply init_safe; [reflexivity|lia]. Qed.
+
+(* the former finding on this tree: TERM, a worker exits with code 3 during the wait *)
+Example boot_failure_during_stop_example :
+  let s := run w_cfg w_s0 w_ls in
+  if reap_guards_halting
+  then ws s = [101] /\ cur (run w_cfg s (repeat Master 30)) = PExited 0 /\ pidfs (run w_cfg s (repeat Master 30)) = false
+  else cur s = PCrashed /\ pidfs s = true.
+Proof. exact w_outcome. Qed.
